@@ -1,4 +1,6 @@
 """C04: tasks run depth-first in request order; identical invocations run once."""
+import contextlib
+import io
 import itertools
 import random
 import time
@@ -6,9 +8,24 @@ import time
 from .. import coqterm as ct
 from ..core import Prop
 
-PNAMES = ["xx", "yy", "flag"]
+PNAMES = ["xx", "yy", "flag", "items"]
 DEFAULTS = [None, False, True, 0, 1, 7, "a", ""]
 VALS = [None, False, True, 0, 1, 7, 9, "a", "b", ""]
+LISTS = [[], ["p"], ["p", "q"], ["q"]]
+
+
+def _shuffled(rng, d):
+    """the same keyword arguments, written in another order"""
+    items = list(d.items())
+    rng.shuffle(items)
+    return dict(items)
+
+
+def _val(rng, default):
+    """an argument value of the parameter's kind (list parameters get lists)"""
+    if isinstance(default, list):
+        return list(rng.choice(LISTS))
+    return default if rng.random() < 0.4 else rng.choice(VALS)
 BOUND = ["build", "deploy", "clean", "test", "docs", "lint"]
 ALIASES = ["b", "d", "cl", "t", "dx", "ln"]
 COLLS = ["root", "sub", "lib"]
@@ -102,12 +119,13 @@ class C04(Prop):
     ]
     assumptions = [
         "pre/post graphs are acyclic (the inductive [call] type cannot express a cycle; invoke itself recurses forever on one)",
-        "every generated call binds to its task's signature (no TypeError); argument values are None/bool/int/str",
+        "every generated call binds to its task's signature (no TypeError); argument values are None/bool/int/str and "
+        "lists of strings (iterable parameters)",
         "'identical' = same task object and Python-equal effective arguments; the arguments a body receives are "
         "compared type-strictly with the ones specified",
         "names are plain lower-case words (normalisation is C10's subject)",
     ]
-    not_modelled = ["autoprint output", "config reloading per call (C19)", "Call subclasses / parameterised expansion"]
+    not_modelled = ["config reloading per call (C19)", "Call subclasses / parameterised expansion"]
 
     # ---- generation --------------------------------------------------------
     def _hook(self, rng, case, j, p_args):
@@ -118,11 +136,12 @@ class C04(Prop):
         npos = rng.randint(0, len(ps))
         args = []
         for p, d in ps[:npos]:
-            args.append(d if rng.random() < 0.4 else rng.choice(VALS))
+            args.append(_val(rng, d))
         kwargs = {}
         for p, d in ps[npos:]:
             if rng.random() < 0.5:
-                kwargs[p] = d if rng.random() < 0.4 else rng.choice(VALS)
+                kwargs[p] = _val(rng, d)
+        kwargs = _shuffled(rng, kwargs)
         return {"task": j, "args": args, "kwargs": kwargs}
 
     def _gen(self, rng):
@@ -139,7 +158,8 @@ class C04(Prop):
             ps = []
             if rng.random() < p_params:
                 for p in rng.sample(PNAMES, rng.randint(1, 2)):
-                    ps.append([p, rng.choice(DEFAULTS)])
+                    # "items" is an iterable parameter: default [], values are lists
+                    ps.append([p, [] if p == "items" else rng.choice(DEFAULTS)])
             factory = None
             own = None
             # a sibling made by the same factory as an earlier task
@@ -165,7 +185,8 @@ class C04(Prop):
             if not has_default[coll] and rng.random() < 0.4:
                 dflt = has_default[coll] = True
             case["tasks"].append({"id": i, "name": own or bound, "bound": bound, "coll": coll, "aliases": aliases,
-                                  "params": ps, "pre": [], "post": [], "factory": factory, "default": dflt})
+                                  "params": ps, "pre": [], "post": [], "factory": factory, "default": dflt,
+                                  "autoprint": rng.random() < 0.4})
         p_args = rng.choice([0.0, 0.4, 0.8])
         for i in range(n - 1):
             later = list(range(i + 1, n))
@@ -190,13 +211,15 @@ class C04(Prop):
             kind, nm = rng.choice(names_of(case, tid))
             req = {"form": form, "task": tid, "as": nm}
             if form == "pair":
-                req["kwargs"] = {p: (d if rng.random() < 0.4 else rng.choice(VALS))
-                                 for p, d in ps if rng.random() < 0.6}
+                req["kwargs"] = _shuffled(rng, {p: _val(rng, d) for p, d in ps if rng.random() < 0.6})
             if form == "ctx":
                 toks = []
                 for p, d in ps:
                     if rng.random() < 0.4:
-                        if d is False:
+                        if isinstance(d, list):
+                            for v in rng.choice(LISTS[1:]):
+                                toks += ["--" + p, v]
+                        elif d is False:
                             toks += ["--" + p]
                         elif isinstance(d, bool) or d is None:
                             pass
@@ -281,7 +304,9 @@ class C04(Prop):
                 return call(objs[h["task"]], *h.get("args", []), **h.get("kwargs", {}))
             pre = [hook(h) for h in t["pre"]]
             post = [hook(h) for h in t["post"]]
-            kw = dict(name=t["name"], aliases=tuple(t.get("aliases", [])), post=post)
+            kw = dict(name=t["name"], aliases=tuple(t.get("aliases", [])), post=post,
+                      autoprint=bool(t.get("autoprint")),
+                      iterable=[p for p, d in t["params"] if isinstance(d, list)])
             if case.get("decorator"):
                 tk = task_deco(*pre, **kw)(body) if pre else task_deco(**kw)(body)
             else:
@@ -325,13 +350,21 @@ class C04(Prop):
         except Exception as e:  # a request the parser refuses: not a C04 case
             return {"req_kwargs": None, "err": "request:" + type(e).__name__}
         cfg = Config(overrides={"tasks": {"dedupe": bool(case["dedupe"])}})
+        out = io.StringIO()
         try:
-            results = Executor(coll, config=cfg).execute(*reqs)
+            with contextlib.redirect_stdout(out):
+                results = Executor(coll, config=cfg).execute(*reqs)
         except RecursionError:
             return {"req_kwargs": req_kwargs, "err": "RecursionError"}
         except Exception as e:  # noqa
             return {"req_kwargs": req_kwargs, "err": type(e).__name__}
-        return {"req_kwargs": req_kwargs, "ok": {"log": log, "results": [[k._verif_id, v] for k, v in results.items()]}}
+        # every body returns its position in the log; autoprint prints it
+        try:
+            printed = [int(x) for x in out.getvalue().split()]
+        except ValueError:
+            printed = [-1]
+        return {"req_kwargs": req_kwargs, "ok": {"log": log, "results": [[k._verif_id, v] for k, v in results.items()],
+                                                 "printed": printed}}
 
     # ---- Coq terms -------------------------------------------------------------
     def _kw(self, d):
@@ -349,8 +382,9 @@ class C04(Prop):
         eqk = ct.lst([ct.pair(ct.n(t["id"]), ct.n(1000 + t["factory"])) for t in case["tasks"]
                       if t.get("factory") is not None])
         rk = obs.get("req_kwargs")
+        autop = ct.lst([ct.n(t["id"]) for t in case["tasks"] if t.get("autoprint")])
         if rk is None:   # unusable request: an empty, trivially true case
-            return "(mk %s %s [] None true (Ok ([], [])))" % (sigs, eqk)
+            return "(mk %s %s [] None true (Ok ([], [])) %s [])" % (sigs, eqk, autop)
         reqs = ct.lst([ct.pair(self._tree(case, r["task"], [], {}), self._kw(k))
                        for r, k in zip(case["requests"], rk)])
         dt = default_tid(case)
@@ -361,7 +395,8 @@ class C04(Prop):
             log = ct.lst([ct.pair(ct.n(t), self._kw(kw)) for t, kw in obs["ok"]["log"]])
             res = ct.lst([ct.pair(ct.n(t), ct.n(v)) for t, v in obs["ok"]["results"]])
             o = "(Ok (%s, %s))" % (log, res)
-        return "(mk %s %s %s %s %s %s)" % (sigs, eqk, reqs, dflt, ct.b(case["dedupe"]), o)
+        pr = ct.lst([ct.n(i) if i >= 0 else "9999%nat" for i in (obs["ok"]["printed"] if "ok" in obs else [])])
+        return "(mk %s %s %s %s %s %s %s %s)" % (sigs, eqk, reqs, dflt, ct.b(case["dedupe"]), o, autop, pr)
 
     # ---- classification ----------------------------------------------------------
     def _order(self, case, obs):
@@ -401,8 +436,9 @@ class C04(Prop):
         F-C04c: dedupe on and two *different* tasks of one factory (same Task.__eq__ class) are called with
         Python-equal literal arguments.  (The adjusted judgement is made in Coq: core consults this only
         when the faithful model agrees with the implementation.)"""
-        if not case["dedupe"] or obs.get("req_kwargs") is None:
+        if obs.get("req_kwargs") is None:
             return None
+        # (with dedupe off the same two equalities still decide which executions autoprint)
         order = self._order(case, obs)
         lit = fac = False
         for a, b in itertools.combinations(order, 2):
